@@ -169,12 +169,14 @@ def families(tier, seed):
         fams = [sigma.fam(a, 3, V) for a in ('blocks', 'ws', 'ops', 'stm', 'stm2', 'strs', 'indent', 'sem')]
         fams += [sigma.fam(a, 4, ['3.8'], name='%s=4' % a, n_lo=4) for a in ('blocks', 'ws', 'indent')]
         fams.append(sigma.fam('ffc', 6, ['3.8']))
+        fams.append(sigma.fam('pep8', 4, ['3.8', '3.13']))
         k = ('ops', 'stm', 'stm2', 'strs')[seed % 4]
         fams.append(sigma.seed_slice(k, 4, ['3.8', '3.14'], seed, 16))
     else:
         fams = [sigma.fam(a, 4, V) for a in ('blocks', 'ws', 'ops', 'stm', 'stm2', 'strs', 'indent', 'sem')]
         fams += [sigma.fam(a, 5, ['3.12'], name='%s=5' % a, n_lo=5) for a in ('blocks', 'ws', 'indent')]
         fams.append(sigma.fam('ffc', 7, ['3.8']))
+        fams.append(sigma.fam('pep8', 5, ['3.8', '3.13']))
     if tier == 'quick':
         fams += [sigma.g3('3.8', 4, slice_mod=2, slice_eq=seed % 2), sigma.g3('3.13', 4, slice_mod=8, slice_eq=seed % 8)]
     else:
